@@ -1,6 +1,6 @@
 ------------------------------- MODULE MC_Gate -------------------------------
 EXTENDS Gate, Json
-CONSTANT Depth          \* 1 or 2
+CONSTANT Depth          \* 1, 2 or 3
 T0 == Leaf
 Wrap1(S) == {Ref(t) : t \in S} \cup {MutRef(t) : t \in S} \cup {Box(t) : t \in S}
             \cup {Opt(s, t) : s \in {"std", "dipl"}, t \in S}
@@ -11,8 +11,10 @@ R0 == Res(L("prim"), L("unit"))
 R1 == Res(L("prim"), L("enum"))
 NestedRes == {Res(R1, L("unit")), Res(L("prim"), R1), Opt("std", R0), Opt("dipl", R0), Box(R0), Ref(R0), Res(R0, L("unit")), Res(L("unit"), R0)}
 T2 == T1 \cup Wrap1(T1 \ T0) \cup {Res(a, b) : a \in ResArm, b \in ResArm} \cup NestedRes
+\* depth 3: one more wrapper around every depth-2 type that is not a Result (Option<Option<&T>>, &Box<Option<T>>, ...)
+T3 == T2 \cup Wrap1(Wrap1(T1 \ T0))
 Ty == IF Depth = 1 THEN T1 \cup {Res(a, b) : a \in {L("unit"), L("prim"), L("zst"), L("struct"), Box(L("opaque")), Ref(L("opaque"))},
-                                           b \in {L("unit"), L("enum"), L("opaque"), Ref(L("opaque")), Opt("std", Ref(L("opaque"))), L("str_std")}} ELSE T2
+                                           b \in {L("unit"), L("enum"), L("opaque"), Ref(L("opaque")), Opt("std", Ref(L("opaque"))), L("str_std")}} ELSE IF Depth = 2 THEN T2 ELSE T3
 
 HasKind(t, K) == Mentions(t, K)
 SelfTypes == {Ref(L("opaque")), MutRef(L("opaque")), L("opaque"), L("struct"), Ref(L("struct")), L("outstruct"), L("enum")}
